@@ -14,13 +14,13 @@ CLAIMS = {
     "C02": ("durability/ordering protocol + error discipline (MUSTPASS/ORDER/GUARDED/ORIGIN over MIR CFGs); re-evaluates the manifest reader/replay/rollover rules C13.1/5/6",
             "Decides the protocol shape that crash safety needs on every path: ack only after the covering fdatasync (the coalesced token is the maximum offset under every ordering; everything handed to the fsync queue is a write-queue token or 0), SST "
             "sync before use, manifest write<flush<sync<rollover, link<manifest<install, log retired last and only on the Ok edge of the ingest, no storage error "
-            "dropped or unwrapped, no truncating open of data files.  A batch is reduced to one entry per key before it is stamped, logged and inserted (what is durable can be replayed), and every explicit panic on the write path is an internal invariant listed with its reason.  A manifest handle whose write failed appends nothing behind the torn edit.  Does not enumerate crash states.", "§4 C02"),
+            "dropped or unwrapped, no truncating open of data files.  A batch is reduced to one entry per key before it is stamped, logged and inserted (what is durable can be replayed), and every explicit panic on the write path is an internal invariant listed with its reason.  A manifest handle whose write failed appends nothing behind the torn edit.  SstBuilder::seal writes nothing after its sync_all; every fallible step of a manifest edit is recorded in poison.  Does not enumerate crash states.", "§4 C02"),
     "C09": ("checksum-gate dominance, sanity-gate chain, bounded-allocation slice, R-ERR + explicit-panic audit + implicit-bounds audit (array-bounds dataflow on byte buffers) over REACH(read entry points)",
             "Decides that every consumer of file bytes is dominated by the equal edge of its CRC comparison, that the "
             "final-block sanity gates dominate the first block load, that data-sized allocations are bounded, and that no "
             "explicit panic / dropped error is reachable from the file-reading entry points, and that every index / slice of a "
             "byte buffer on those paths is in range by a dominating comparison on the same buffer (exceptions listed with "
-            "reasons).  A message a constructor decodes straight from file bytes and keeps must be covered by a checksum comparison (the SST final block is not: known finding F19).  Does not decide detection of every flip nor integer-overflow panics.", "§4 C09, §9.1"),
+            "reasons).  A message a constructor decodes straight from file bytes and keeps must be covered by a checksum comparison (the SST final block is not: known finding F19).  A count decoded from a block is subtracted from a length only under a check; the manifest reader drops an unfinished edit only at the end of its input.  Does not decide detection of every flip nor integer-overflow panics.", "§4 C09, §9.1"),
     "C12": ("ORDER/GUARDED/ORIGIN over the log writer and reader CFGs; writer/reader discriminant table agreement; R-ERR + explicit-panic + implicit-bounds audit; re-evaluates C02.1 (ack after covering fdatasync, offset covers the batch) and C18.1 (queue hand-off)",
             "Decides: append acknowledges only after the covering fdatasync; frame CRC gate and header size bounds dominate "
             "the hand-out; the discriminants written equal those accepted and FIRST is completed only by SECOND; split "
@@ -31,7 +31,7 @@ CLAIMS = {
             "Decides: one append then sync_data before apply returns; rollover links a backup, writes the roll-up to a "
             "temporary and renames it; the reader delivers an edit only at its separator and drops a trailing partial edit; "
             "lines are CRC-gated; the directory lock is taken before reading and owned by the handle; only _apply/rollover "
-            "write manifest files.  Writer and reader agree on the alphabet of a line (shortest line admitted; non-ASCII text, a trailing CR and the action characters as info keys refused at write time); a refused in-process lock attempt opens no descriptor.  A handle whose write failed accepts no further edit or rollover; a rollover that died after linking its backup is resumed, not repeated (the fragments keep chaining).  Does not decide tolerance of every truncation/crash point or the string alphabet.", "§4 C13"),
+            "write manifest files.  Writer and reader agree on the alphabet of a line (shortest line admitted; non-ASCII text, a trailing CR and the action characters as info keys refused at write time); a refused in-process lock attempt opens no descriptor.  A handle whose write failed accepts no further edit or rollover; a rollover that died after linking its backup is resumed, not repeated (the fragments keep chaining).  Every fallible step of an edit is recorded; None is answered only at the end of the input; nothing unlinks or renames the lock file.  Does not decide tolerance of every truncation/crash point or the string alphabet.", "§4 C13"),
     "C08": ("who-may-call enumeration of every remove/rename/hard_link site with ORIGIN path classification; GUARDED/ORDER on unref, verifier and orphan scan (incl. the numeric order of manifest fragments and who may run the scan); ESCAPE of the VersionRef; MUSTPASS re-read of the base version after a wait",
             "Decides the deletion capability: nothing under sst/, mani/ or a log is ever unlinked by the store, an sst/ file is "
             "moved to trash/ only under dec()==true and strong_count==1, versions are referenced before publication, the "
@@ -45,7 +45,7 @@ CLAIMS = {
             "accumulate every entry and seal writes that digest, GC adds each dropped entry to the discard it reports, the "
             "verifier's gates exist, fail closed and dominate its verdict, every edit refreshes the state the final gate checks, and "
             "the verifier reads every file a transaction adds and recomputes its setsum (the necessary condition of rejecting an "
-            "altered output).  The GC replay accepts only once the replayed collector is exhausted (a retained key in no output is a loss wherever it sorts).  Does not decide that the numbers are right for every history or that every tamper is rejected.", "§4 C04"),
+            "altered output).  The GC replay accepts only once the replayed collector is exhausted (a retained key in no output is a loss wherever it sorts).  Every compaction output that is summed into 'O' is named by the edit (C05.3).  Does not decide that the numbers are right for every history or that every tamper is rejected.", "§4 C04"),
     "C05": ("who-may-call + GUARDED (GC only under top_level), loop-body MUSTPASS (every entry read is written; every input/output wired; every policy child consulted), per-key state reset analysis, accumulator shape of the policy combinators, ORIGIN",
             "Decides rewrite completeness and GC confinement: GC is reachable only on the top_level edge and only with the "
             "configured policy; a plain compaction writes every entry it reads and leaves its loop only at end of input; "
@@ -53,7 +53,7 @@ CLAIMS = {
             "collector resets its per-key state on every key change; any/all consult every child without short-circuit and the version "
             "counter always retains a key's first untombstoned version; the multi-builder seals every builder it lets go, records every file it "
             "opens and forwards each entry unchanged to the current builder.  "
-            "Outputs are cut only between two different keys (or at a full table).  A policy combinator defines and forwards every method of the Determiner trait to every child.  Does not decide multiset equality of contents or GC policy semantics.", "§4 C05"),
+            "Outputs are cut only between two different keys (or at a full table).  A policy combinator defines and forwards every method of the Determiner trait to every child.  The version a compaction installs derives from a snapshot taken under the lock that installs it (C08.6).  Does not decide multiset equality of contents or GC policy semantics.", "§4 C05"),
     "C06": ("HELD lock-guard dataflow (must/may), ORDER, GUARDED, WRITES and ORIGIN over KeyValueStore::{write,load,range_scan,_memtable_thread}",
             "Decides the critical-section and completion-order skeleton linearizability needs: one critical section assigns queue "
             "position, sequence number, memtable and log; Ok only after append < insert < head-of-list wait < unlink < notify; "
@@ -65,7 +65,7 @@ CLAIMS = {
             "the leader publishes every taken waiter's output before leaving and clears doing_work; wait-list head/tail change "
             "only under its lock in link/_unlink; LRU size and key map change together and nodes are freed after unmapping, "
             "raw derefs only under the cache lock; a wait that re-waits on a private predicate is used only where every writer of "
-            "that predicate holds the mutex slept with, every other wait is re-entered in a loop.  an unlink that finds a parked linker always announces the free slot; a use (lookup hit, overwrite, insert) makes the LRU entry the most recently used.  notify_head signals whenever a head exists, under no further condition.  Does not decide "
+            "that predicate holds the mutex slept with, every other wait is re-entered in a loop.  an unlink that finds a parked linker always announces the free slot; a use (lookup hit, overwrite, insert) makes the LRU entry the most recently used.  notify_head signals whenever a head exists, under no further condition.  The LRU links a new entry before it evicts, and evicts down to the capacity.  Does not decide "
             "exactly-once/ordering under all interleavings.", "§4 C18"),
     "C20": ("whole-program Acquires/MayWait summaries (call graph + typed Drop glue) -> lock-order graph cycles; condvar wait/notify discipline via HELD (Mutex and RwLock guards); ORDER/MUSTPASS for announcements, claim release and the mandatory-compaction emit; re-evaluates the coalescing-queue and wait-list rules C18.1/2/5 that every write passes through",
             "Decides deadlock-freedom structure: no two locks are taken in both orders (one flag-gated pair checked and excepted), "
@@ -88,14 +88,14 @@ CLAIMS = {
             "Decides pipeline composition: every scan is Bounds(Pruning(Merging(components))) with the captured timestamp and "
             "the caller's bounds, no component (mem, imm, any L0 file, any overlapping deeper file) can be left out -- files are skipped only by the "
             "overlap test, never by an iterator adaptor or a sub-slice --, the snapshot "
-            "is captured atomically, exhaustion is tested through key(); the files of one level are key-ordered after recovery only if mutually unordered files are not flattened into it (C01.9, known finding F32).  The per-level concatenation re-seeks every file it enters (C11.7).  Does not decide ordering/exactly-once/seek landing.", "§4 C03"),
+            "is captured atomically, exhaustion is tested through key(); the files of one level are key-ordered after recovery only if mutually unordered files are not flattened into it (C01.9, known finding F32).  The per-level concatenation re-seeks every file it enters (C11.7).  The wrapper cursors of the scan pipeline forward each step one-to-one (C11.2).  Does not decide ordering/exactly-once/seek landing.", "§4 C03"),
     "C11": ("SIBLINGS forwarding tables and mirror-image rules (bounds next/prev, concat seek/next/prev, pruning seek/next), GUARDED key-before-value tests, ORDER on the merging cursor's direction switch",
             "Decides sibling consistency of the combinators: value() presence tests are tombstone tests (key known Some), wrappers "
             "forward m to m and never cross key/value, a direction switch advances every child before flipping the comparator "
             "and rebuilding the heap and moves children by single steps only (no re-seek), every seek positions every child, pruning filters by timestamp <= snapshot, recognises "
             "tombstones and accepts an entry only after screening it against skip_key (seek and next alike); the bounds cursor "
             "re-checks both bounds after every step in both directions; the concatenating cursor leaves an exhausted child.  "
-            "The pruning cursor records every entry it returns (prev as next and seek); the concatenating cursor's binary search never classifies an empty child.  A child that becomes current in the concatenating cursor is positioned by a seek of its own before it is stepped or read.  Does not decide the combinator equivalences for all inputs.", "§4 C11"),
+            "The pruning cursor records every entry it returns (prev as next and seek); the concatenating cursor's binary search never classifies an empty child.  A child that becomes current in the concatenating cursor is positioned by a seek of its own before it is stepped or read.  A lazy cursor stores its resting position only after its last fallible step; wrapper cursors step once per step.  Does not decide the combinator equivalences for all inputs.", "§4 C11"),
     "C07": ("who-frees analysis over Drop impls (GUARDED uniqueness test or pointee ownership), ESCAPE of the VersionRef, ORIGIN pipeline chains, ADT field-type facts; re-evaluates C06.3/5 (snapshot capture and visibility watermark)",
             "Decides the ownership/escape structure a memory-safe snapshot needs: shared memory is freed only by the Arc's pointee or "
             "behind a uniqueness test, iterators hold a clone of the list's Arc, the returned scan cursor owns the VersionRef that "
@@ -120,7 +120,7 @@ CLAIMS = {
             "explicit panic or dropped error is reachable from a decoder, and every index / slice expression on the decode path "
             "is in range by a dominating comparison with the length of the same buffer (7 excepted sites with reasons); every hand-written "
             "Packable impl sizes through pack_sz each concrete component it writes through pack (a Tag::pack_sz that sizes the tag itself is "
-            "tabulated over all valid field numbers against the varint length).  Leaf field packers always write their field (presence is decided only by Option / Vec / Box), every scalar field type announces the wire type of what it writes, and every field loop of a derived decoder can pass over an unknown field.  A varint decoder's growing shift sits in a loop bounded by a constant of at most ten steps.  Does "
+            "tabulated over all valid field numbers against the varint length).  Leaf field packers always write their field (presence is decided only by Option / Vec / Box), every scalar field type announces the wire type of what it writes, and every field loop of a derived decoder can pass over an unknown field.  A varint decoder's growing shift sits in a loop bounded by a constant of at most ten steps.  The derived nested-message packers write tag and length on every path.  Does "
             "not decide round-trip equality or integer-overflow panics.", "§4 C15, §9.1"),
     "C16": ("TABLE reading of to/from_discriminant (inverse bijection < 16), const evaluation of tuple_key2 tag ranges, exhaustive evaluation over u8 of the descending byte map read from MIR, exact piecewise-translation tabulation of the sign-offset mapping (order isomorphism, decode inverts encode), explicit-panic audit + implicit-bounds audit with an inductive offset <= len type invariant over REACH(decoders)",
             "Claims only: the decoders of both formats reach no explicit panic construct and index their buffers in range (parser "
@@ -147,7 +147,7 @@ CLAIMS = {
             "agree; plus two small structural clauses: all bit-vector implementations reject the same indices in access (>= len) "
             "and rank (> len), and a backward-search step returns an empty range whenever one of its input ranges is empty.  "
             "Index writers drive no loop by a zip() whose sides can differ in length.  Everything numerical in C19 (search positions, counts, rank/select/access, record mapping, extraction) is "
-            "In suffix-array construction an LMS substring is named apart from its predecessor only by the first-element test or a comparison between the two.  NOT decided by static analysis and is not claimed.", "§4 C19"),
+            "In suffix-array construction an LMS substring is named apart from its predecessor only by the first-element test or a comparison between the two.  search pushes one located offset per index of the range count() answers with (accepted form).  NOT decided by static analysis and is not claimed.", "§4 C19"),
 }
 
 NA_DEFAULT = "check not built yet (DESIGN.md §8 build order); will be claimed once its rule set is armed"
@@ -187,7 +187,7 @@ def main():
             {"name": "bluefacts", "path": "engine/bluefacts", "serves_properties": [c["property_id"] for c in checks],
              "kind_free_text": "rustc_private driver (RUSTC_WORKSPACE_WRAPPER under cargo +nightly check): dumps resolved MIR, ADTs, impls, consts as JSON facts"},
             {"name": "bluecheck", "path": "engine/blue", "serves_properties": [c["property_id"] for c in checks],
-             "kind_free_text": "Python rule engine over the facts: CFG reachability/dominance (MUSTPASS, ORDER, GUARDED), field-sensitive ORIGIN slice, HELD lock dataflow, R-ERR, panic audit, who-may-call; rules/Cxx.py"},
+             "kind_free_text": "Python rule engine over the facts: CFG reachability/dominance (MUSTPASS, ORDER, GUARDED), field-sensitive ORIGIN slice, HELD lock dataflow, R-ERR, panic audit, who-may-call; rules/Cxx.py.  Before any rule runs the program is normalised: a private single-use helper that is not in the frozen table rules/known_fns.txt is spliced into its caller (engine/blue/inline.py), so extracting a helper does not hide a protocol from the rule anchored at its caller; an exception inside a rule is a fail-closed violation"},
             {"name": "mutate", "path": "tools/mutate.py", "serves_properties": [c["property_id"] for c in checks],
              "kind_free_text": "thorough-tier checker self-test: seeded source variants (mutants/, seeded/) must type-check and be reported by name"},
         ],
